@@ -346,7 +346,9 @@ Theorem C08_axes_guard_rank3 : forall (axes : list Z) (reduced : Z) (sh : list Z
 Proof. exact axes_guard_rank3. Qed.
 Print Assumptions C08_axes_guard_rank3.
 
-(* PARTIAL (not proved): the full SPEC statement for several axes,
+(* The full SPEC statement for several axes is now proved in PropC08b.v (C08_reduce_axes_spec,
+   under associativity + commutativity of the operation, both shown necessary).  The statement
+   that was open when this file was written:
      forall along (distinct, in range, fewer than rank), op associative and commutative,
        (from_zero = true -> forall v, op vzero v = v) ->
        m_reduce V vzero op from_zero σ t along = (Ok (sh', r), along) ->
